@@ -90,13 +90,19 @@ def lanczos_tridiag(
 
     # Copy over alpha_0 and beta_0 to t_mat
     t_mat[0, 0].copy_(alpha_0)
-    t_mat[0, 1].copy_(beta_0)
-    t_mat[1, 0].copy_(beta_0)
+    # With a single iteration (max_iter = 1 or a 1 x 1 matrix), or if the initial vectors are already
+    # eigenvectors (beta_0 = 0), the Krylov space is exhausted: return the first Lanczos vector only
+    if num_iter > 1 and torch.sum(beta_0.abs() > 1e-6) > 0:
+        t_mat[0, 1].copy_(beta_0)
+        t_mat[1, 0].copy_(beta_0)
 
-    # Compute the first new vector
-    q_mat[1].copy_(r_vec.div_(beta_0.unsqueeze(dim_dimension)))
+        # Compute the first new vector
+        q_mat[1].copy_(r_vec.div_(beta_0.unsqueeze(dim_dimension)))
+    else:
+        num_iter = 1
 
     # Now we start the iteration
+    k = 0
     for k in range(1, num_iter):
         # Get previous values
         q_prev_vec = q_mat[k - 1]
